@@ -572,21 +572,9 @@ pub fn run(tier: Tier) -> i32 {
                     if z1 != z2 && (t1 != ts[0] || t2 != ts[1]) {
                         continue; // different zones: one pair of instants
                     }
-                    let (a, b) = (V::dt(t1, 0, z1), V::dt(t2, 500_000_000, z2));
-                    let doc = V::List(vec![a.clone(), b.clone(), V::Grid(Box::new(crate::model::v::G { ver: "3.0".into(), meta: None, cols: vec![crate::model::v::Col { name: "ts".into(), meta: None }, crate::model::v::Col { name: "v".into(), meta: None }], rows: vec![crate::model::v::mk_tags(&[("ts", a.clone()), ("v", V::num(1.0))]), crate::model::v::mk_tags(&[("ts", b.clone()), ("v", V::num(2.0))])] }))]);
                     local.eval();
                     local.count("timestamp-pair-documents");
-                    let r = super::c01::zinc_roundtrip(&doc).map_err(|(s, d)| (format!("zinc:{s}"), d)).and_then(|_| super::c02::hayson_roundtrip(&doc).map_err(|(s, d)| (format!("hayson:{s}"), d)));
-                    // and from the reference writer's text
-                    let r = r.and_then(|_| {
-                        let text = crate::model::zinc_ref::write_canonical(&doc);
-                        match guarded(|| libhaystack::encoding::zinc::decode::from_str(&text)) {
-                            Ok(Ok(back)) => crate::model::v::same(&doc, &crate::model::v::from_lib(&back)).map_err(|d| ("zinc:reference-text".to_string(), format!("{d}; text={text:?}"))),
-                            Ok(Err(e)) => Err(("zinc:reference-text-rejected".to_string(), format!("{e}; text={text:?}"))),
-                            Err(p) => Err(("zinc:reference-text-panic".to_string(), p)),
-                        }
-                    });
-                    if let Err((stage, d)) = r {
+                    if let Err((stage, d)) = two_timestamps(z1, t1, z2, t2) {
                         local.fail(&format!("{stage}:two-timestamps-in-one-document"), json!({"two_timestamps": [z1, t1, z2, t2]}), d.chars().take(700).collect());
                     }
                 }
@@ -606,6 +594,30 @@ pub fn run(tier: Tier) -> i32 {
     run.finish(&replay)
 }
 
+/// two timestamps in one document (a list and two rows of a grid) through both codecs and from the
+/// reference writer's text
+fn two_timestamps(z1: &str, t1: i64, z2: &str, t2: i64) -> Verdict {
+    let (a, b) = (V::dt(t1, 0, z1), V::dt(t2, 500_000_000, z2));
+    let doc = V::List(vec![
+        a.clone(),
+        b.clone(),
+        V::Grid(Box::new(crate::model::v::G {
+            ver: "3.0".into(),
+            meta: None,
+            cols: vec![crate::model::v::Col { name: "ts".into(), meta: None }, crate::model::v::Col { name: "v".into(), meta: None }],
+            rows: vec![crate::model::v::mk_tags(&[("ts", a.clone()), ("v", V::num(1.0))]), crate::model::v::mk_tags(&[("ts", b.clone()), ("v", V::num(2.0))])],
+        })),
+    ]);
+    super::c01::zinc_roundtrip(&doc).map_err(|(s, d)| (format!("zinc:{s}"), d))?;
+    super::c02::hayson_roundtrip(&doc).map_err(|(s, d)| (format!("hayson:{s}"), d))?;
+    let text = crate::model::zinc_ref::write_canonical(&doc);
+    match guarded(|| libhaystack::encoding::zinc::decode::from_str(&text)) {
+        Ok(Ok(back)) => crate::model::v::same(&doc, &crate::model::v::from_lib(&back)).map_err(|d| ("zinc:reference-text".to_string(), format!("{d}; text={text:?}"))),
+        Ok(Err(e)) => Err(("zinc:reference-text-rejected".to_string(), format!("{e}; text={text:?}"))),
+        Err(p) => Err(("zinc:reference-text-panic".to_string(), p)),
+    }
+}
+
 /// the offset of a zoned text is the zone's offset at the instant the text denotes
 fn consistent(text: &str, city: &str) -> bool {
     let full = crate::model::universe::ZONES.iter().find(|z| city_of(z) == city).copied().unwrap_or("UTC");
@@ -613,8 +625,9 @@ fn consistent(text: &str, city: &str) -> bool {
 }
 
 pub fn replay(case: &J) -> Verdict {
-    if case.get("two_timestamps").is_some() {
-        return Err(("two-timestamps-in-one-document".into(), "re-run ./check C06 quick".into()));
+    if let Some(a) = case["two_timestamps"].as_array() {
+        let (z1, t1, z2, t2) = (a[0].as_str().unwrap_or("UTC"), a[1].as_i64().unwrap_or(0), a[2].as_str().unwrap_or("UTC"), a[3].as_i64().unwrap_or(0));
+        return two_timestamps(z1, t1, z2, t2).map_err(|(s, d)| (format!("{s}:two-timestamps-in-one-document"), d));
     }
     if case["history_pair"].is_string() {
         // replayed by the whole check (the pair is only meaningful within its pool)
